@@ -177,8 +177,49 @@ def check_tally(case, ctx):
                 nt = True
         if with_matches >= 2 or any(len(i.matches) >= 2 for i in infos):
             nt = True
+    check_text_report(r, paired, args)
     if nt:
         ctx.nontrivial_case({"args": args})
+
+
+def check_text_report(r, paired, args):
+    """The per-adapter lines of the text report must state the same totals as the JSON report."""
+    import re
+
+    text = r.report
+    if not text or "=== Summary ===" not in text:
+        return
+    sections = re.findall(r"=== (First read: |Second read: )?Adapter (\S+) ===\n\n([^\n]*)", text)
+    js = {0: r.json.get("adapters_read1") or [], 1: r.json.get("adapters_read2") or []}
+    seen = {0: 0, 1: 0}
+    for which, name, line in sections:
+        side = 1 if which.startswith("Second") else 0
+        entries = js[side]
+        if seen[side] >= len(entries):
+            raise Violation(f"text report lists more adapters than the JSON report ({args})", observed=line)
+        e = entries[seen[side]]
+        seen[side] += 1
+        if e["name"] != name:
+            raise Violation(f"text report lists adapter {name} where the JSON report has {e['name']} ({args})")
+        m = re.search(r"5' trimmed: (\d+) times; 3' trimmed: (\d+) times", line)
+        if m:
+            got = (int(m.group(1)), int(m.group(2)))
+            exp = ((e["five_prime_end"] or {}).get("matches", 0), (e["three_prime_end"] or {}).get("matches", 0))
+        else:
+            m = re.search(r"Trimmed: (\d+) times", line)
+            if not m:
+                raise Violation(f"cannot find the number of matches of adapter {name} in the text report ({args})", observed=line)
+            got, exp = int(m.group(1)), e["total_matches"]
+        if got != exp:
+            raise Violation(f"text report says adapter {name} was trimmed {got} times, JSON report says {exp} ({args})",
+                            observed=line, expected=exp)
+        m = re.search(r"Reverse-complemented: (\d+) times", line)
+        if m and int(m.group(1)) != (e["on_reverse_complement"] or 0) and e["on_reverse_complement"] is not None:
+            raise Violation(f"text report: adapter {name} reverse-complemented {m.group(1)} times, JSON: "
+                            f"{e['on_reverse_complement']} ({args})", observed=line)
+    for side in (0, 1):
+        if seen[side] != len(js[side]):
+            raise Violation(f"text report lists {seen[side]} adapters for read {side + 1}, JSON lists {len(js[side])} ({args})")
 
 
 # --------------------------------------------------------------------------- ranges
